@@ -1448,7 +1448,41 @@ func ruleC07Monotone(c *Ctx) {
 				case *types.Basic:
 					if ft.Kind() == types.Bool {
 						k, isConst := x.Val.(*ssa.Const)
-						c.R.Check(isConst && k.Value != nil && k.Value.String() == "true", rule, construct, c.pos(x), "the flag is only ever set to true", "annotations."+f.Name()+" is assigned something other than the constant true: a recorded 'all evaluated' could be withdrawn or set spuriously")
+						okFlag := isConst && k.Value != nil && k.Value.String() == "true"
+						// `a.f = a.f || v`: true where the flag was set, anything where it was not
+						if phi, isPhi := x.Val.(*ssa.Phi); isPhi && !okFlag {
+							isOld := func(v ssa.Value) bool {
+								ld, ok := v.(*ssa.UnOp)
+								if !ok || ld.Op != token.MUL {
+									return false
+								}
+								fa2, ok := ld.X.(*ssa.FieldAddr)
+								return ok && fa2.Field == fa.Field && fa2.X == fa.X
+							}
+							var test *ssa.BasicBlock
+							for ei, pr := range phi.Block().Preds {
+								if ifi, ok := pr.Instrs[len(pr.Instrs)-1].(*ssa.If); ok && isOld(ifi.Cond) && pr.Succs[0] == phi.Block() {
+									if kc, ok := phi.Edges[ei].(*ssa.Const); ok && kc.Value != nil && kc.Value.String() == "true" {
+										test = pr
+									}
+								}
+							}
+							if test != nil {
+								okFlag = true
+								for ei, pr := range phi.Block().Preds {
+									if pr == test {
+										continue
+									}
+									if kc, ok := phi.Edges[ei].(*ssa.Const); ok && kc.Value != nil && kc.Value.String() == "true" {
+										continue
+									}
+									if pr != test.Succs[1] && !test.Succs[1].Dominates(pr) {
+										okFlag = false
+									}
+								}
+							}
+						}
+						c.R.Check(okFlag, rule, construct, c.pos(x), "the flag is only ever set to true", "annotations."+f.Name()+" is assigned something other than the constant true: a recorded 'all evaluated' could be withdrawn or set spuriously")
 						return
 					}
 					// integer high-water mark: guarded by new > old
